@@ -358,4 +358,19 @@ def anonLoop (p : Program) : Bool :=
   let n := ads.length
   (List.range n).any fun u => (succ.getD u []).any fun vb => vb.2 && (vb.1 == u || (reachList E n vb.1).contains u)
 
+
+/-- the alias gate added to `detect_cycles` (repair of D-05c): an alias is reported with E019 when, descending from its
+    underlying type through anonymous types (aliases being transparent), an anonymous type is met twice on the current
+    path — i.e. when an alias lying on a loop is reachable from it (the alias itself included). In a program the patcher
+    accepted, every alias loop runs through an anonymous type. -/
+def anonLoopAliases (p : Program) : List String :=
+  let t := buildTable p
+  let ads := aliasDefs p
+  let keys := ads.map (·.1)
+  let succ := ads.map (aliasSuccs t keys)
+  let E : EdgeFn := fun i => (succ.getD i []).map fun jb => (0, jb.1)
+  let n := ads.length
+  let cyc := onCycle E n
+  ((List.range n).filter fun a => cyc.contains a || (reachList E n a).any cyc.contains).map fun a => keys.getD a ""
+
 end Slicec.Cyc
